@@ -340,7 +340,9 @@ func TestC13_Trees(t *testing.T) {
 		comp := fill() + "<div>{{ arg }}@slot(\"s\")" + fill() + "@slot</div>\n"
 		page := "@use(\"lay\")\n" + fill() + "@insert(\"title\", \"T\")\n"
 		scenario := rapid.SampledFrom([]string{"page-top", "page-insert-block", "page-slot-body", "page-component-arg", "layout-parse", "component-parse", "page-parse", "undefined-insert", "unknown-component", "nolayout-page", "page-after-nested-render"}).Draw(rt, "scenario")
-		cs := lineCase{Fault: ff.kind, Page: "page", WantFile: "t/page.tw"}
+		// the page's name may itself end in the extension (file report.tw.tw), or sit in a directory
+		pageName := rapid.SampledFrom([]string{"page", "page", "report.tw", "sub/deep.er/page"}).Draw(rt, "pageName")
+		cs := lineCase{Fault: ff.kind, Page: pageName, WantFile: "t/" + pageName + ".tw"}
 		compUse := func(arg, slotBody string) string {
 			return "@component(\"comp\", {arg: " + arg + "})\n@slot(\"s\")" + slotBody + "@end\n@slot in default@end\n@end\n"
 		}
@@ -418,7 +420,7 @@ func TestC13_Trees(t *testing.T) {
 		if cs.WantLine < 1 {
 			return
 		}
-		cs.Tree = tree.Tree{"t/page.tw": {Content: page}, "t/lay.tw": {Content: layout}, "t/comp.tw": {Content: comp}, "t/other.tw": {Content: "<other>\n{{ 1 + 1 }}\n</other>"}}
+		cs.Tree = tree.Tree{"t/" + pageName + ".tw": {Content: page}, "t/lay.tw": {Content: layout}, "t/comp.tw": {Content: comp}, "t/other.tw": {Content: "<other>\n{{ 1 + 1 }}\n</other>"}}
 		nt := cs.WantLine > 1
 		c.Case(nt, mustJSON(cs.Tree), "scenario:"+scenario, "fault:"+cs.Fault)
 		if nt {
